@@ -195,6 +195,8 @@ def materialise(p: dict, root: Path, rnd: random.Random, outside: Path | None = 
 
 def _rel(path: str, root: Path) -> str:
     p = Path(path)
+    if not p.is_absolute():
+        return p.as_posix()          # LICENSES/ entries are reported relative to the root already
     try:
         return p.relative_to(root).as_posix()
     except ValueError:
